@@ -260,6 +260,7 @@ def units(tier):
             if name in VOLUME_FAMILIES and mode is not None:
                 continue
             us.append({'k': 'struct', 'mode': mode, 'name': name})
+    us.append({'k': 'nested_halves'})
     return us
 
 
@@ -382,6 +383,7 @@ VOLUME_FAMILIES = {
 }
 STRUCT_FAMILIES.update(VOLUME_FAMILIES)
 VOLUME_PROBE_K = {'sec_ranges_999': 30, 'sec_x_lot_ranges': 15}
+NESTED_HALVES_PROBE_K = 21
 
 
 def structural(acc, tier, mode, name):
@@ -468,6 +470,14 @@ def run_unit(unit, tier):
                 text = ' '.join([TRACT_TOKENS[unit['first']]] + [TRACT_TOKENS[i] for i in tail])
                 for cfg in TRACT_CFGS:
                     measure(acc, f"tract|{cfg}", text, cfg, tract=True)
+    elif unit['k'] == 'nested_halves':
+        # a chain of k halves: one piece by default; with break_halves every half of the chain is broken into two quarters, i.e.
+        # 2^k pieces (output volume, see the known findings).  One probe at the length where the answer alone costs the limit,
+        # so that the memory of the worker stays bounded; all depth configurations on a chain of 12 halves.
+        for cfg in (None, 'clean_qq', 'qq_depth_min.1', 'qq_depth_min.3', 'qq_depth.2', 'qq_depth_max.4,break_halves'):
+            measure(acc, f"tract|{cfg}|struct|nested_halves", 'N/2' * 99 + 'NE', cfg, tract=True)
+            measure(acc, f"tract|{cfg}|struct|nested_halves", 'N/2' * 12 + 'NE/4', cfg, tract=True)
+        measure(acc, "break_halves|struct|nested_halves", 'N/2' * NESTED_HALVES_PROBE_K + 'NE/4', 'break_halves', tract=True)
     elif unit['k'] == 'pump2':
         for b in unit['bs']:
             if b == unit['a']:
